@@ -45,6 +45,9 @@ Module Ex.
   Definition t : N := 2.
   Definition A : bytes := hx "aa".
   Definition B : bytes := hx "bb".
+  Definition s0 : N := 0.
+  Definition s1 : N := 1.
+  Definition s2 : N := 2.
   Definition sh (x : bytes) (s : N) (v : lbl) : share lbl := mkShare x s v.
 
   Definition before : list (share lbl) :=
@@ -111,7 +114,8 @@ Module Ex.
   Lemma d_wf : stored_shares_wf d m.
   Proof.
     intros n0 t0 H. vm_compute in H. injection H as <- <-. split; [lia|].
-    vm_compute. repeat constructor.
+    let r := eval vm_compute in (insert_share_rows d m) in change (rows_below 3 r).
+    repeat (constructor; [reflexivity|]). constructor.
   Qed.
 
   Lemma d_reaches : reaches_aggregation d m 3 2.
